@@ -64,6 +64,12 @@ pub enum Req {
     /// connect an empty block
     AddBlockEmpty,
     Allowlist,
+    /// add another address to the allowlist
+    AllowlistB,
+    /// remove the address `Allowlist` adds
+    AllowlistRemove,
+    /// sign counterparty commitment 0 of channel 2 (refused while it is a stub)
+    SignCp2,
     /// counterparty commitment 2 of channel 1 with a new outgoing HTLC for the keysend hash
     PayA,
     /// counterparty commitment 1 of channel 4 with an outgoing HTLC for the same hash
@@ -218,10 +224,20 @@ fn exec(c: &Ctx, r: Req) -> String {
             cc.to_holder -= 30_000;
             tag(w.with_chan(4, |ch| ch.sign_counterparty_commitment_tx_phase2(&p, 1, cc.feerate, cc.to_holder, cc.to_cp, cc.inc_info(), cc.out_info())))
         }
-        Req::Allowlist => {
+        Req::Allowlist | Req::AllowlistB => {
+            let node = w.node.clone();
+            let addr = node.get_native_address(&wallet_path(if r == Req::Allowlist { 77 } else { 78 })).unwrap().to_string();
+            tag(call(move || node.add_allowlist(&[addr.clone()]).map_err(|e| status_kind(&e))))
+        }
+        Req::AllowlistRemove => {
             let node = w.node.clone();
             let addr = node.get_native_address(&wallet_path(77)).unwrap().to_string();
-            tag(call(move || node.add_allowlist(&[addr.clone()]).map_err(|e| status_kind(&e))))
+            tag(call(move || node.remove_allowlist(&[addr.clone()]).map_err(|e| status_kind(&e))))
+        }
+        Req::SignCp2 => {
+            let p = Cp::new(120).point(0);
+            let c0 = f.c0.clone();
+            tag(w.with_chan(2, |ch| ch.sign_counterparty_commitment_tx_phase2(&p, 0, c0.feerate, c0.to_holder, c0.to_cp, c0.inc_info(), c0.out_info())))
         }
     }
 }
@@ -277,6 +293,11 @@ pub fn scenarios(tier: Tier) -> Vec<Scenario> {
     v.push(Scenario { prep: vec![], reqs: vec![SignHolder1, ValidateRevoke] });
     v.push(Scenario { prep: vec![], reqs: vec![SignCp, CpRevoke] });
     v.push(Scenario { prep: vec![SignCp], reqs: vec![CpRevoke, Forget1] });
+    // two updates of the allowlist (memory and store must end up in the same order)
+    v.push(Scenario { prep: vec![], reqs: vec![Allowlist, AllowlistB] });
+    v.push(Scenario { prep: vec![Allowlist], reqs: vec![AllowlistRemove, AllowlistB] });
+    // a channel is used while it is being set up
+    v.push(Scenario { prep: vec![], reqs: vec![Setup2, SignCp2] });
     // one approved payment, two channels each adding an outgoing HTLC for it
     v.push(Scenario { prep: vec![Keysend], reqs: vec![PayA, PayB] });
     for k in [SignCp, ValidateRevoke, Forget1, Balance, Heartbeat] {
